@@ -5,9 +5,11 @@
 d=$1; shift
 cd /repo || exit 2
 if ! git diff --quiet; then echo "/repo has local changes"; exit 2; fi
-git apply --check "$d/patch.diff" 2>/dev/null || { echo "patch does not apply cleanly, trying 3-way"; }
-git apply -3 "$d/patch.diff" || { echo "APPLY-FAILED"; git checkout -- . ; exit 2; }
+rebase=0
+git apply --check "$d/patch.diff" 2>/dev/null || { echo "patch does not apply cleanly, trying 3-way"; rebase=1; }
+git apply -3 "$d/patch.diff" || { echo "APPLY-FAILED"; git reset -q --hard HEAD; exit 2; }
 git reset -q
+if [ $rebase = 1 ]; then cp "$d/patch.diff" "$d/patch.orig.diff"; git diff > "$d/patch.diff"; echo "rebased patch written"; fi
 echo "--- demo with patch:"; EDXML_SDK_ROOT=/repo /venv/bin/python "$d/demo.py" > /tmp/demo.out 2>&1; echo "demo rc=$?"; tail -3 /tmp/demo.out
 echo "--- tests with patch:"; /venv/bin/python -m pytest -q -p no:cacheprovider 2>&1 | grep ^FAILED | sed 's/ - .*//' | sort | diff - /tmp/baseline_failed.txt > /dev/null && echo "tests: same as baseline" || echo "tests: DIFFER from baseline"
 for p in "$@"; do
